@@ -386,6 +386,13 @@ class SpecMixin:
             return base.meta[1][z3.simplify(Val.i(idx.t)).as_long()]
         if base.ty == "dict":
             return SV(self.dict_val(st, base.t, idx.t))
+        if base.ty == "tuple" and z3.is_int_value(z3.simplify(Val.i(idx.t))) and z3.simplify(Val.i(idx.t)).as_long() >= 0 \
+                and not smt.is_true(smt.is_ref(base.t)):
+            # a tuple VALUE (cons cells), constant index
+            t = base.t
+            for _ in range(z3.simplify(Val.i(idx.t)).as_long()):
+                t = Val.tl(t)
+            return SV(Val.hd(t))
         if base.ty == "str":
             i = Val.i(idx.t)
             n = z3.Length(Val.s(base.t))
